@@ -127,9 +127,15 @@ def _make_1d(orig):
         sb = _state["sb"]
         if sb is not None:
             sb.steps = 0
+        if _state.get("nonterm", 0) >= 20:
+            # the search has been seen not to terminate 20 times in this worker (each a
+            # recorded violation): stop paying 20000 lines per call, let the workload go on
+            counters["calls_bypassed_after_repeated_non_termination"] += 1
+            return count_le(arr, val) - 1
         try:
             res = orig(val, arr)
         except steps.StepBudgetExceeded:
+            _state["nonterm"] = _state.get("nonterm", 0) + 1
             counters["evals_1d"] += 1
             contracts.evaluations["get_bin_on_value_1d"] += 1
             contracts.report(
